@@ -165,7 +165,9 @@ macro_rules! bezier_impl_any {
                     (t, self.evaluate(t))
                 });
                 // half_interval = 1/(2*steps)
-                let h = (steps_f + steps_f).recip();
+                // NOTE: with `steps == 0` there is no sample and the search starts from the end point;
+                // 1/(2*0) is infinite and the search would never terminate, so use 1/2 as for one step.
+                let h = if steps == 0 { (T::one() + T::one()).recip() } else { (steps_f + steps_f).recip() };
                 self.binary_search_point(p, it, h, epsilon)
             }
             // TODO: Test this! binary_search_point
